@@ -38,6 +38,8 @@ Print Assumptions C10_lexer_roundtrip.
 
 (* non-vacuity: a rule with a doc comment closed by two stars, a literal, a %prec annotation and an action, written without
    any optional blank, meets the hypotheses; the tokens come back *)
+From Coq Require Import Ascii.
+Open Scope char_scope.
 Example C10_lexer_roundtrip_example :
   let d : doc :=
     [([], TkId "a" []); ([], TkPunct PColon); ([SBlock ["*"; " "; "x"; " "; "*"]], TkChar "+");
